@@ -621,10 +621,10 @@ class Explorer:
 
     def run_tree(self, handle):
         from collections import deque
-        queue = deque([(None, 0, None, None)])
+        queue = deque([(None, 0, None, None)]); prio = deque()   # prio: alternatives of float->int conversions (index / endpoint classes) first
         npaths = 0
-        while queue and npaths < self.max_paths:
-            prefix, bound, expect, near = queue.popleft()
+        while (queue or prio) and npaths < self.max_paths:
+            prefix, bound, expect, near = prio.popleft() if prio else queue.popleft()
             if prefix is None:
                 inputs = {}
             else:
@@ -652,7 +652,7 @@ class Explorer:
                 if not ok: self.diverged += 1; bound = 0
             cs = [c for _, c in atoms]
             for k in range(bound, len(atoms)):
-                queue.append((defs + cs[:k] + [z3.Not(cs[k])], k + 1, shape[:k + 1], rec.inputs()))
-        self.coverage_complete = (not queue) and not self.cover_unknown and self.diverged == 0
-        self.pending = len(queue)
+                (prio if atoms[k][0][0] >= 100 else queue).append((defs + cs[:k] + [z3.Not(cs[k])], k + 1, shape[:k + 1], rec.inputs()))
+        self.coverage_complete = (not queue) and (not prio) and not self.cover_unknown and self.diverged == 0
+        self.pending = len(queue) + len(prio)
         return npaths
